@@ -34,8 +34,8 @@ def run(ctx):
                   'field_size': 'none: identities hold in every commutative ring'}
     ids = C.Identities(ctx, 'tower')
 
-    def ident(name, got, exp, group):
-        ids.ident(name, got, exp, group, key=name.split(':')[0].split(' ')[0])
+    def ident(name, got, exp, group, cond=None):
+        ids.ident(name, got, exp, group, cond=cond, key=name.split(':')[0].split(' ')[0])
 
     towers = [
         ('fq2', T2, fq2, s2_mul, s2_add, s2_sub, s2_neg, [1, 0]),
@@ -117,13 +117,10 @@ def run(ctx):
         ident('fq12/A.%s (layered over abstract Fq6)' % meth, ex6.load(st, ra), exp, 'ring-identity')
     st = State()
     ra = ex6.alloc(st, a)
+    n0_ = len(D6.inv_facts)
     r = ex6.call(st, F + 'inverse', [ra])
-    if not (isinstance(r, Enum) and len(D6.inv_facts) == 1):
-        raise Inconclusive('fq12.inverse: expected exactly one Fq6 inversion')
-    t, n = D6.inv_facts[-1]
-    ident('fq12.inverse: out*in = (t*N)*1 over abstract Fq6', m12a(tolist(r.payload['Some'][0]), la), [t * n, 0], 'ring-identity')
-    chk.must_unsat('fq12.inverse: Some iff Fq6 norm invertible', z3.Xor(r.disc == 1, z3.Not(D6.iszero(n))), group='case-structure')
-    ident('fq12.inverse: norm handed down = c0^2 - V*c1^2', [n], [la[0] * la[0] - V * la[1] * la[1]], 'ring-identity')
+    inverse_obligations(chk, ident, 'fq12 (over abstract Fq6)', D6, n0_, r, lambda o: m12a(tolist(o), la), [1, 0],
+                        la[0] * la[0] - V * la[1] * la[1], 'c0^2 - V*c1^2')
     st = State()
     rz = ex.alloc(st, _const_like(fq12('z'), 0))
     r0 = ex.call(st, F + 'inverse', [rz])
@@ -156,15 +153,12 @@ def run(ctx):
         ident('fq6/B.%s (layered over abstract Fq2)' % meth, ex2.load(st, ra), exp, 'ring-identity')
     st = State()
     ra = ex2.alloc(st, a)
+    n0_ = len(D2.inv_facts)
     r = ex2.call(st, F + 'inverse', [ra])
-    if not (isinstance(r, Enum) and len(D2.inv_facts) == 1):
-        raise Inconclusive('fq6.inverse: expected exactly one Fq2 inversion')
-    t, n = D2.inv_facts[-1]
-    ident('fq6.inverse: out*in = (t*N)*1 over abstract Fq2', m6a(tolist(r.payload['Some'][0]), la), [t * n, 0, 0], 'ring-identity')
-    chk.must_unsat('fq6.inverse: Some iff Fq2 norm invertible', z3.Xor(r.disc == 1, z3.Not(D2.iszero(n))), group='case-structure')
     a0_, a1_, a2_ = la
-    ident('fq6.inverse: norm handed down = a0^3 + XI a1^3 + XI^2 a2^3 - 3 XI a0 a1 a2', [n],
-          [a0_ * a0_ * a0_ + XIs * a1_ * a1_ * a1_ + XIs * XIs * a2_ * a2_ * a2_ - 3 * XIs * a0_ * a1_ * a2_], 'ring-identity')
+    inverse_obligations(chk, ident, 'fq6 (over abstract Fq2)', D2, n0_, r, lambda o: m6a(tolist(o), la), [1, 0, 0],
+                        a0_ * a0_ * a0_ + XIs * a1_ * a1_ * a1_ + XIs * XIs * a2_ * a2_ * a2_ - 3 * XIs * a0_ * a1_ * a2_,
+                        'a0^3 + XI a1^3 + XI^2 a2^3 - 3 XI a0 a1 a2')
     st = State()
     rz = ex.alloc(st, _const_like(fq6('z'), 0))
     r0 = ex.call(st, F + 'inverse', [rz])
@@ -300,6 +294,33 @@ def replay(ctx, path):
 def run_and_code(ctx):
     run(ctx)
     return 1 if ctx.chk.violations else 0
+
+
+def inverse_obligations(chk, ident, nm, D, n0, r, prod_out_in, one_vec, norm_spec, norm_name):
+    """obligations for `inverse` when it makes ANY number of leaf inversions on different branches (fast paths):
+    with (t_k, n_k) the k-th inversion (t_k n_k = 1 when n_k != 0) made under path condition pc_k, the result must satisfy
+    out * in = (t_k n_k) * 1 on that branch.  Exactly one inversion (the code as it stands) gives the two classic obligations
+    "out*in = (t N) 1" and "Some iff N invertible" plus "N is the norm"."""
+    facts = D.inv_facts[n0:]
+    pcs = D.inv_pcs[n0:]
+    if not isinstance(r, Enum) or not facts:
+        raise Inconclusive('%s.inverse: no leaf inversion observed' % nm)
+    out = r.payload['Some'][0]
+    if len(facts) == 1:
+        t, n = facts[0]
+        ident('%s.inverse: out*in = (t*N)*1' % nm, prod_out_in(out), [x * (t * n) for x in one_vec], 'ring-identity')
+        chk.must_unsat('%s.inverse: Some iff norm invertible' % nm, z3.Xor(r.disc == 1, z3.Not(D.iszero(n))), group='case-structure')
+        ident('%s.inverse: norm handed down = %s' % (nm, norm_name), [n], [norm_spec], 'ring-identity')
+        return
+    scale = z3.IntVal(1)
+    for (t, n), pc in reversed(list(zip(facts, pcs))):
+        c = z3.And(*[C.mk(x) for x in pc]) if pc else z3.BoolVal(True)
+        scale = z3.If(c, t * n, scale)
+    some = (r.disc == 1) if not isinstance(r.disc, int) else z3.BoolVal(r.disc == 1)
+    ident('%s.inverse (%d inversions on different branches): out*in = (t_k*n_k)*1 on every branch that returns Some' % (nm, len(facts)),
+          prod_out_in(out), [x * scale for x in one_vec], 'ring-identity', cond=some)
+    chk.must_unsat('%s.inverse: Some iff the norm %s is non-zero' % (nm, norm_name), z3.Xor(some, z3.Not(D.iszero(norm_spec))), group='case-structure')
+
 
 
 def translator_validation(ctx, ex, D, const_vals):
